@@ -64,7 +64,7 @@ prop("C04",
 )
 
 prop("C14",
-     coq=["model/Alias.v", "proofs/AliasProofs.v", "chk/C14chk.v", "props/C14.v", "refute/C14.v"],
+     coq=["model/Alias.v", "proofs/AliasProofs.v", "model/Auth.v", "proofs/AuthProofs.v", "chk/C14chk.v", "props/C14.v", "refute/C14.v"],
      n={"quick": 400, "thorough": 8000, "search": 1500},
      shrink_fields=["topics", "pkts"],
      rule="every 25th case 'resume': a durable v5 subscriber with Topic Alias Maximum 1/2/5 leaves 2-9 aliased QoS 1 messages unacknowledged and reconnects - the retransmissions must decode and resolve against the new connection's empty alias table; "
